@@ -62,6 +62,9 @@ def matrix_cases(profile="json"):
 def matrix(tier):  # noqa: F811 (module name reused deliberately as the runner's hook)
     for i, c in enumerate(matrix_cases()):
         yield dict(c, opts=OPTS[i % len(OPTS)])
+    # the relation cells again on a document that has been READ before it is written (accessors, lookups, unified())
+    for i, c in enumerate(mx.relation_cells("json")):
+        yield dict(c, opts=OPTS[i % len(OPTS)], touch=True)
 
 
 def classify(b, ctx, case):
@@ -114,6 +117,10 @@ def check(case, ctx):
         ctx.count("opt:%s=%s" % (k, v))
     before = canon(d)
     items = []
+    if case.get("touch", len(case["ops"]) % 3 == 0):
+        from ..touch import readonly_touch
+        readonly_touch(d, len(case["ops"]), foreign_lookups=False)     # reads must not leak into what is written
+        ctx.count("touched_before_writing")
     try:
         text = d.serialize(format="json", **opts)
     except Exception as e:  # "writing any document": a failure to write is a violation
